@@ -94,6 +94,7 @@ def run(ctx, report):
         path = os.path.join(ctx.workdir("c09"), f"h{h}")
         shutil.rmtree(path, ignore_errors=True)
         next_rid = [0]
+        shape = {"cat": rng.random() < 0.35 or h % 5 == 1, "swap": rng.random() < 0.5 or h % 10 == 3}
 
         def frame(n):
             df = pd.DataFrame({"rid": np.arange(next_rid[0], next_rid[0] + n, dtype="int64"), "v": np.arange(n, dtype="float64")})
@@ -102,6 +103,11 @@ def run(ctx, report):
                 df["p"] = np.array([rng.choice([0, 1, 2]) for _ in range(n)], dtype="int64")
             if nparts >= 2:
                 df["q"] = pd.Series([rng.choice(["x", "y"]) for _ in range(n)], dtype=object)
+            if nparts >= 1 and shape["cat"]:
+                # a categorical key with categories that have no rows in some (or any) chunk, as a frame read back from the dataset has
+                df["p"] = pd.Categorical(df["p"].tolist(), categories=[0, 1, 2, 9])
+            if nparts >= 2 and shape["swap"]:
+                df = df[["rid", "q", "v", "p"]]      # frame order of the key columns differs from partition_on
             return df
 
         spec = {}          # plain model: partition dir -> list of rid lists (row groups), plus global order not asserted
@@ -109,13 +115,15 @@ def run(ctx, report):
         steps_obs = []
         ops_model = []
         hist = []
-        length = rng.randrange(2, maxlen + 1)
+        length = rng.randrange(2, maxlen + 1) if h % 5 not in (1, 3) else rng.randrange(3, maxlen + 1)
         broken = False
         for step in range(length):
             kind = "w" if step == 0 else rng.choice(["a", "a", "o", "r", "r", "g", "s"] if nparts else ["a", "a", "r", "r", "g", "s"])
+            if nparts and step == 2 and h % 5 in (1, 3):
+                kind = "o"       # every key-shape variant sees at least one partition overwrite
             n = rng.choice([1, 2, 4, 7])
             offs = rng.choice([None, [0], [0, n // 2] if n > 1 else [0], 2, 3])
-            rec = {"check": "history", "partition_columns": parts, "history": list(hist), "step": step}
+            rec = {"check": "history", "partition_columns": parts, "history": list(hist), "step": step, "frame_shape": dict(shape)}
             ctx.crumb(rec)
             try:
                 if kind in ("w", "a", "o", "g"):
